@@ -1230,9 +1230,9 @@ func (r *realm) cleanSessionDetails(details wamp.Dict) wamp.Dict {
 		return clean
 	}
 
-	// If transport detail does not have auth, then use transport as-is.
-	authDict := wamp.DictChild(transDict, "auth")
-	if authDict == nil {
+	// If transport detail does not have auth, then use transport as-is. The
+	// auth item is removed whatever type of value it has.
+	if _, ok := transDict["auth"]; !ok {
 		return clean
 	}
 
